@@ -48,6 +48,22 @@ impl ContextBag {
             }
         }
 
+        // a context must not be its own ancestor
+        for context in &self.contexts {
+            let mut steps = 0;
+            let mut current = context;
+            while let Some(parent_index) = current.parent_index {
+                current = &self.contexts[parent_index];
+                steps += 1;
+                if steps > self.contexts.len() {
+                    return Err(anyhow!(
+                        "context \"{}\": parent cycle detected",
+                        &context.name
+                    ));
+                }
+            }
+        }
+
         // merge environments of parent context, recursively. to do that,
         // we need to ensure that we process the contexts in an order so that each context is
         // processed after all its parents have been processed.
